@@ -218,31 +218,33 @@ def run(run):
         # set of names
         names_let = [x for x in S.subterms(t) if is_call(x, "split")]
         run.check("R3", "splits-on-comma", any(("lit", ",") in x[2] for x in names_let), "the --partial argument must be split on ','", site)
-        # find closure: equality on the full name
+        # every comparison of a module's name: equality on the full name or membership in a collection of names
         finds = []
         for c in C.closures(f):
             ct = S.value(S.Sym(C).term(c["body"]))
-            if is_call(ct, ("eq", "ne", "starts_with", "contains", "ends_with", "eq_ignore_ascii_case")) and any(isinstance(x, tuple) and x and x[0] == "field" and x[2] == "name" for x in S.subterms(ct)):
-                finds.append((ct, c))
+            for x in S.subterms(ct):
+                if is_call(x, ("eq", "ne", "starts_with", "contains", "ends_with", "eq_ignore_ascii_case", "find", "matches", "strip_prefix")) and any(isinstance(y, tuple) and y and y[0] == "field" and y[2] == "name" for a in x[2] for y in S.subterms(a)):
+                    finds.append((x, c))
         if not finds:
-            run.undecided("R3", "name-equality", "no name comparison closure found", site)
-        for ct, c in finds:
-            good = is_call(ct, "eq") and any(x[0] == "field" and x[2] == "name" for x in ct[2]) and any(x[0] == "var" and x[1] == "module_name" for x in ct[2])
-            run.check("R3", "name-equality", good, "a listed name selects the module with exactly that name; the comparison is %s" % fmt(ct), C.loc(c["body"]))
-        # the filter_map closure: found -> Some(module); empty -> None; else panic
-        ok = False
-        for c in C.closures(f):
-            ct = S.value(S.Sym(C).term(c["body"]))
-            if ct[0] == "ite" and ct[1][0] == "let" and ct[1][1].startswith("Some"):
-                then = S.value(ct[2])
-                el = S.value(ct[3])
-                if then[0] == "adt" and then[2] == "Some" and el[0] == "ite" and is_call(el[1], "is_empty"):
-                    none_b = S.value(el[2])
-                    pan = any(is_call(x, ("panic_fmt", "panic", "panic_display", "begin_panic")) for x in S.subterms(el[3]))
-                    ok = none_b[0] == "adt" and none_b[2] == "None" and pan
-        run.check("R3", "unknown-name-panics", ok, "an unknown non-empty module name must be rejected (panic), an empty name ignored, a known name selects its module", site)
-        # result assigned to *modules
-        assigns = [x for x in S.subterms(t) if isinstance(x, tuple) and x and x[0] == "assign"]
-        run.check("R3", "replaces-module-list", len(assigns) == 1 and is_call(assigns[0][2], "collect"), "the filtered list must replace the module list", site)
+            run.undecided("R3", "name-equality", "no comparison of module names found", site)
+        for i, (ct, c) in enumerate(finds):
+            if is_call(ct, ("eq", "ne")):
+                good = True
+            elif is_call(ct, "contains"):
+                # membership in a set/slice of names is fine; substring search in a string is not
+                good = "str" not in ct[3].split("::")[-2] and ("HashSet" in ct[3] or "BTreeSet" in ct[3] or "[T]" in ct[3] or "Vec" in ct[3] or "slice" in ct[3])
+            else:
+                good = False
+            run.check("R3", "name-equality|%d" % i, good, "a listed name must select the module with exactly that name; the comparison `%s` (%s) matches by %s" % (fmt(ct), ct[3], "substring/prefix" if not good else "equality"), C.loc(c["body"]))
+        # unknown names are rejected
+        all_terms = [t] + [S.Sym(C).term(c["body"]) for c in C.closures(f)]
+        pan = any(is_call(x, ("panic_fmt", "panic", "panic_display", "begin_panic", "panic_explicit")) for tt in all_terms for x in S.subterms(tt))
+        run.check("R3", "unknown-name-panics", pan, "an unknown non-empty module name must be rejected with a panic; no panic is left in filter_modules_for_partial_run", site)
+        empties = any(is_call(x, "is_empty") for tt in all_terms for x in S.subterms(tt))
+        run.check("R3", "empty-name-ignored", empties, "an empty list entry (e.g. a trailing comma) must be ignored rather than rejected", site)
+        # the module list is actually replaced / filtered
+        assigns = [x for x in S.subterms(t) if isinstance(x, tuple) and x and x[0] == "assign" and any(isinstance(y, tuple) and y and y[0] == "var" and y[1] == "modules" for y in S.subterms(x[1]))]
+        retains = [x for x in S.subterms(t) if is_call(x, ("retain", "retain_mut")) and x[2][0][0] == "var" and x[2][0][1] == "modules"]
+        run.check("R3", "replaces-module-list", bool(assigns) or bool(retains), "the module list must be replaced by / filtered down to the listed modules", site)
 
     run.guarded("R3", r3)
